@@ -57,6 +57,11 @@ for code in (2,8,9,12,18,25,37,1,11):
     name=served[code]; v=4 if code==25 else 0
     t='quick' if code in (12,) else 'thorough'
     out.append(line(f"e_be_{name}_replybit", code, 0xd, 0, v, t, f"request {code} with the REPLY bit set (flags 0xd): must be rejected", "C04,C05,C09"))
+    # SET_CONFIG's payload is variable: a declared size one byte shorter / longer is just another payload
+    # length (valid when the body's size word says so), not a malformed header - no short/long class for it
+    # (an earlier version had one and raised a false alarm in the thorough tier, see DESIGN.md section 6)
+    if code == 25:
+        continue
     if code not in (1,):
         out.append(line(f"e_be_{name}_short", code, 0x9, -1, v, t, f"request {code} with declared size one byte short", "C04,C05,C09"))
     out.append(line(f"e_be_{name}_long", code, 0x9, 1, v, t, f"request {code} with declared size one byte long", "C04,C05,C09"))
